@@ -140,6 +140,12 @@ Inductive op :=
 | VRemoveInter (t : target) (u v : label)
 | VSetOffset (t : target) (b : Qc)
 | MarkDiscrete (l : nat) (m : bool)
+| Clear                                                     (* cyConstrainedQuadraticModel.clear() *)
+| FromDqm (d : mdesc) (groups : list (nat * list label))    (* ConstrainedQuadraticModel.from_discrete_quadratic_model: a NEW model;
+                                                               d = the case-level BQM over the (variable, case) labels,
+                                                               groups = per DQM variable its constraint label and its cases *)
+| SubstSelfLoops (mp : list (label * label * nat))          (* substitute_self_loops(); mp = the mapping it returned:
+                                                               variable, its new counterpart, the label of the new constraint *)
 | Nop.
 
 Definition Qc_ltb (a b : Qc) : bool := negb (Qle_bool b a).
@@ -419,6 +425,53 @@ Definition target_ok (t : target) (q : scqm) : bool :=
 
 Definition set_offset (b : Qc) (p : poly) : poly := mkPoly b (p_lin p) (p_quad p).
 
+(* ---------- substitute_self_loops ----------
+   every self-loop u*u (u not BINARY/SPIN) of the objective or a constraint becomes u*new for ONE new variable per u with
+   u's vartype and bounds; afterwards the constraint u - new == 0 is appended under the label of `new`.  The new labels
+   are drawn at random by the implementation, so the operation carries the mapping it returned; the specification
+   decides WHICH variables must be in it (exactly those with a stored self-loop, in any expression). *)
+Definition needs_subst (q : scqm) (x : vinfo) : bool :=
+  negb (is_bin_or_spin (v_vt x))
+  && (has_pair (p_quad (q_obj q)) (v_lbl x) (v_lbl x)
+      || existsb (fun k => has_pair (p_quad (k_p k)) (v_lbl x) (v_lbl x)) (q_cons q)).
+
+Definition subst_loops_poly (vt : label -> vartype) (mp : list (label * label * nat)) (p : poly) : poly :=
+  fold_left (fun p t => let u := fst (fst t) in let nw := snd (fst t) in
+                        if has_pair (p_quad p) u u
+                        then remove_interaction u u (s_addq vt u nw (quad_coeff (p_quad p) u u) p)
+                        else p) mp p.
+
+Definition subst_self_loops (mp : list (label * label * nat)) (q : scqm) : scqm * exc :=
+  let need := map v_lbl (filter (needs_subst q) (q_vars q)) in
+  let keys := map (fun t => fst (fst t)) mp in
+  let news := map (fun t => snd (fst t)) mp in
+  if negb (forallb (fun x => memb x keys) need && forallb (fun x => memb x need) keys) then (q, XOther)
+  else if negb (distinct keys && distinct news && distinct (map snd mp)) then (q, XOther)
+  else if existsb (fun x => has_var x (q_vars q)) news || existsb (fun t => has_con (snd t) (q_cons q)) mp then (q, XOther)
+  else
+    let vs := fold_left (fun vs t => match find_var (fst (fst t)) (q_vars q) with
+                                     | Some x => vs ++ [mkV (snd (fst t)) (v_vt x) (v_lb x) (v_ub x)]
+                                     | None => vs
+                                     end) mp (q_vars q) in
+    let f := subst_loops_poly (vt_of vs) mp in
+    let ks := map (fun k => con_set_p k (f (k_p k))) (q_cons q) in
+    let eqs := map (fun t => mkCon (snd t) (add_linear (snd (fst t)) (- (1)) (add_linear (fst (fst t)) 1 pzero)) EQ 0 None false) mp in
+    (mkCqm vs (f (q_obj q)) (ks ++ eqs), XNone).
+
+(* from_discrete_quadratic_model: objective = the case-level BQM, then one discrete constraint per DQM variable *)
+Fixpoint add_groups (gs : list (nat * list label)) (q : scqm) : scqm * exc :=
+  match gs with
+  | [] => (q, XNone)
+  | g :: r => match add_discrete_iter (snd g) (fst g) false q with
+              | (q', XNone) => add_groups r q'
+              | e => e
+              end
+  end.
+
+Definition from_dqm (d : mdesc) (gs : list (nat * list label)) : scqm * exc :=
+  if negb (merge_ok [] (d_vars d)) then (empty_cqm, XValue)
+  else let vs := merge_vars [] (d_vars d) in add_groups gs (mkCqm vs (desc_poly (vt_of vs) d) []).
+
 Definition step (q : scqm) (o : op) : scqm * exc :=
   let vs := q_vars q in
   match o with
@@ -471,6 +524,9 @@ Definition step (q : scqm) (o : op) : scqm * exc :=
   | VSetOffset t b => on_target t (set_offset b) q
   | MarkDiscrete l m =>
       if has_con l (q_cons q) then (upd_con l (fun k => con_set_mark k m) q, XNone) else (q, XKey)
+  | Clear => (empty_cqm, XNone)
+  | FromDqm d gs => from_dqm d gs
+  | SubstSelfLoops mp => subst_self_loops mp q
   | Nop => (q, XNone)
   end.
 
